@@ -16,8 +16,15 @@ L_OVL2 = "P1.1 P2.1 O P0.1 P1.1 O"
 # three level-0 tables forming an overlap chain A-C-F (A and F do not overlap directly), both age orders
 L_OVL3 = "P0.1 P1.1 O P1.1 P2.1 O P2.1 P3.1 O"
 L_OVL3b = "P2.1 P3.1 O P1.1 P2.1 O P0.1 P1.1 O"
-OVL_Q = ["B1~rwr@0/2^" + L_OVL, "B1~rwr@0/2^" + L_OVL2, "B1~rwr@0/1^" + L_OVL3, "B1~rwr@0/1^" + L_OVL3b]
-OVL_T = ["B1~rwr@0/3^" + L_OVL, "B1~rwr@0/3^" + L_OVL2, "B1~rwr@0/2^" + L_OVL3, "B1~rwr@0/2^" + L_OVL3b]
+# a table pushed down to the bottom level (6) by manual compactions level by level, newer data above it
+L_BOTTOM = "P0.1 P1.1 F R0:-:- R1:-:- R2:-:- R3:-:- R4:-:- R5:-:- P1.1 F"
+# two held iterators pinning two different old versions that share a table
+L_TWOIT = "P0.1 F I P1.1 F I"
+# two staggered overlapping level-0 tables above a level-1 table that lies only under the tail of the second one
+L_STAG = "P2.1 O R0:-:- P0.1 P1.1 O P1.1 P3.1 O"
+L_STAGb = "P0.1 O R0:-:- P1.1 P3.1 O P0.1 P1.1 O"
+OVL_Q = ["B1~rwr@0/2^" + L_OVL, "B1~rwr@0/2^" + L_OVL2, "B1~rwr@0/1^" + L_OVL3, "B1~rwr@0/1^" + L_OVL3b, "B1~rwr@0/1^" + L_STAG, "B1~rwr@0/1^" + L_STAGb]
+OVL_T = ["B1~rwr@0/3^" + L_OVL, "B1~rwr@0/3^" + L_OVL2, "B1~rwr@0/2^" + L_OVL3, "B1~rwr@0/2^" + L_OVL3b, "B1~rwr@0/2^" + L_STAG, "B1~rwr@0/2^" + L_STAGb]
 # 6 keys; files g=[b..e] in level 2, x1=[a..k] in level 1, F=[c..k] in level 0, a snapshot pins the older version of k;
 # with 2200-byte tables a level-0 compaction cuts its outputs as [a..c] [d..k@new] [k@old]: one user key split over two files
 L_SPLIT = "P1.1 P4.1 F P0.2 P5.2 F S P2.2 P3.2 P5.2 F"
@@ -42,7 +49,7 @@ def c01_plan(tier):
     if tier == "quick":
         it = ["B1@0/4"] + ["B1,%s@0/2" % t for t in TOGGLES] + ["B2@0/2"]
         it += ["B1@2^" + L_DEEP, "B1,bloom=1,cache=1,mmap=0,snappy=1@2^" + L_DEEP, "B1@2^" + L_TOMB]
-        it += OVL_Q + ["B1~rwr@0/1^" + L_DEEP, "B1,mof=11@0/2^" + L_DEEP] + NOCASE_ITEMS + LONGMAN_ITEMS + [SPLIT_CFG + "@0/2^" + L_SPLIT]
+        it += OVL_Q + ["B1~rwr@0/1^" + L_DEEP, "B1,mof=11@0/2^" + L_DEEP, "B2,reuse=1@2^P1.5 O", "B1@0/2^" + L_BOTTOM] + NOCASE_ITEMS + LONGMAN_ITEMS + [SPLIT_CFG + "@0/2^" + L_SPLIT]
     else:
         it = ["B1@0/5"] + ["B1,%s@4/3" % t for t in TOGGLES] + ["B2@3/3", "B2,snappy=1,bloom=1@3/2"]
         # full cross product of the boolean toggles at depth 2 (no dedup)
@@ -55,7 +62,7 @@ def c01_plan(tier):
                 it.append("B1,%s@0/2" % ",".join(t))
         it += [NOCASE + "@4/3", NOCASE + "@2^P0.1 F P1.1 F P3.1 F P4.1 F", NOCASE + "@3^P0.1 F D1 F", NOCASE + "@3^P3.1 F P4.2 F D3"] + LONGMAN_ITEMS + ["B1,reuse=1,uni=2@2^" + L_LONGMAN]
         it += [SPLIT_CFG + "@0/3^" + L_SPLIT, SPLIT_CFG + "@0/2^" + L_SPLIT + " R0:5:5"]
-        it += OVL_T + ["B1,mof=11@3^" + L_DEEP, "B1,mof=11,mmap=0@3^" + L_BIG, "B1~rwr@0/2^" + L_DEEP, "B1,cmp=1~rwr@0/2^" + L_OVL, "B1~rwr@3/2"]
+        it += OVL_T + ["B1@3^" + L_BOTTOM, "B1~rwr@0/2^" + L_BOTTOM, "B2,reuse=1@3^P1.5 O", "B2,reuse=1@2^P0.5 O", "B2,reuse=1@2^P2.5 O", "B2,reuse=1@2^P1.5 O P0.1 O", "B1,mof=11@3^" + L_DEEP, "B1,mof=11,mmap=0@3^" + L_BIG, "B1~rwr@0/2^" + L_DEEP, "B1,cmp=1~rwr@0/2^" + L_OVL, "B1~rwr@3/2"]
         for L in (L_DEEP, L_TOMB, L_SNAP, L_BIG):
             it += ["B1@3^" + L, "B1,bloom=1,cache=1,mmap=0,snappy=1@3^" + L, "B1,cmp=1@2^" + L]
     return plan(it)
@@ -64,23 +71,23 @@ def c01_plan(tier):
 def c06_plan(tier):
     if tier == "quick":
         return plan(["B1@4/3", "B1,snappy=1,bloom=1@0/2", "B1@2^" + L_SNAP, "B1@2^S " + L_DEEP, NOCASE + "@0/2",
-                     "B1@2^S P0.1 F S P0.1 F", "B1@2^S P0.1 P1.1 S D0 P1.2 F"])
-    return plan(["B1@5/4", "B1,snappy=1,bloom=1@4/3", "B1,cmp=1@3/3", "B2@3/2", NOCASE + "@3/3", "B1@3^" + L_SNAP, "B1@3^S " + L_DEEP,
+                     "B1@2^S P0.1 F S P0.1 F", "B1@2^S P0.1 P1.1 S D0 P1.2 F", "B1@2^" + L_BOTTOM + " S"])
+    return plan(["B1@3^" + L_BOTTOM + " S", "B1@5/4", "B1,snappy=1,bloom=1@4/3", "B1,cmp=1@3/3", "B2@3/2", NOCASE + "@3/3", "B1@3^" + L_SNAP, "B1@3^S " + L_DEEP,
                  "B1@3^P0.1 S D0 S P0.2 F", "B1,cache=1,mmap=0@3^" + L_SNAP,
                  "B1@3^S P0.1 F S P0.1 F", "B1@3^S P0.1 P1.1 S D0 P1.2 F"])
 
 
 def c07_plan(tier):
     if tier == "quick":
-        return plan(["B1@3/2", "B1,cmp=1@0/2", NOCASE + "@0/2", "B1@2^" + L_DEEP, "B1@2^" + L_TOMB, "B1,mof=11@1^" + L_DEEP])
+        return plan(["B1@3/2", "B1,cmp=1@0/2", NOCASE + "@0/2", "B1@2^" + L_DEEP, "B1@2^" + L_TOMB, "B1,mof=11@1^" + L_DEEP, "B1@1^" + L_BOTTOM])
     return plan(["B1@4/3", "B1,cmp=1@3/3", NOCASE + "@3/3", NOCASE + "@2^P0.1 F P1.1 F P3.1 P4.1", "B1,snappy=1,bloom=1,mmap=0@3/2", "B2@2/2", "B1@3^" + L_DEEP, "B1@3^" + L_TOMB,
-                 "B1@3^I " + L_DEEP, "B1,cmp=1@2^" + L_DEEP, "B1@2^" + L_SNAP, "B1,mof=11@2^I " + L_DEEP])
+                 "B1@3^I " + L_DEEP, "B1,cmp=1@2^" + L_DEEP, "B1@2^" + L_SNAP, "B1,mof=11@2^I " + L_DEEP, "B1@2^" + L_BOTTOM, "B1,cmp=1@2^" + L_BOTTOM])
 
 
 def c13_plan(tier):
     if tier == "quick":
-        return plan(["B1@4/3", "B1,reuse=1@0/2", "B1@2^I " + L_DEEP, "B1@2^" + L_BIG, "B1,mof=11@1^I " + L_DEEP])
-    return plan(["B1@5/4", "B1,reuse=1@4/3", "B1,snappy=1,mmap=0@3/3", "B2@3/2", "B1@3^I " + L_DEEP, "B1@3^" + L_BIG,
+        return plan(["B1@4/3", "B1,reuse=1@0/2", "B1@2^I " + L_DEEP, "B1@2^" + L_BIG, "B1,mof=11@1^I " + L_DEEP, "B1@1^I " + L_BOTTOM, "B1@2^" + L_TWOIT, "B1,mof=11@1^" + L_TWOIT])
+    return plan(["B1@3^" + L_TWOIT, "B1@2^P0.1 F P0.1 F I P1.1 F I", "B1,mof=11@2^" + L_TWOIT, "B1@5/4", "B1,reuse=1@4/3", "B1,snappy=1,mmap=0@3/3", "B2@3/2", "B1@3^I " + L_DEEP, "B1@3^" + L_BIG,
                  "B1@3^I " + L_SNAP, "B1,reuse=1@3^" + L_DEEP])
 
 
@@ -230,7 +237,7 @@ E1_ASSUME = [
     "states = executions (each a distinct complete schedule of the implementation), transitions = scheduling points executed",
 ]
 
-MC_ALL = "D1,D1f,D2,D2b,D3,D4,D4b,D5,D6,D7,D8,D9,D10,D11,D14,D15,D16"
+MC_ALL = "D1,D1f,D2,D2b,D3,D4,D4b,D5,D6,D7,D8,D9,D10,D11,D14,D15,D16,D17"
 
 PROPS["C08"] = dict(
     level="model_checking",
@@ -238,8 +245,8 @@ PROPS["C08"] = dict(
     rule="for each scenario every schedule within the deviation bound is executed on a fresh copy of the scenario's initial image; oracle: a total order of the <=12 recorded operations exists that respects real time and explains every get, snapshot read, iterator scan and the final state; distinct = distinct result vectors",
     distinct_key="outcomes", assumptions=E1_ASSUME,
     stages=[dict(name="mc", driver="mc", flavour="asan", args=["--prop", "C08"],
-                 quick=["--scenarios", "D1,D1f,D2,D2b,D3,D4,D4b,D16,D5,D6,D10,D11", "--bound", "2"],
-                 thorough=["--scenarios", "D1,D1f,D2,D2b,D4,D4b,D4c,D16,D5,D6,D10,D11,D3", "--bound", "3"]),
+                 quick=["--scenarios", "D1,D1f,D2,D2b,D3,D4,D4b,D16,D17,D5,D6,D10,D11", "--bound", "2"],
+                 thorough=["--scenarios", "D1,D1f,D2,D2b,D4,D4b,D4c,D16,D17,D5,D6,D10,D11,D3", "--bound", "3"]),
             dict(name="mc-io", driver="mc", flavour="asan", args=["--prop", "C08", "--io", "1"], tiers=["thorough"],
                  thorough=["--scenarios", "D1,D1f,D2,D4,D11", "--bound", "2"])],
 )
@@ -296,8 +303,8 @@ ENGINES["fault"] = "E4: fault-site enumerator over the call log of the in-memory
 
 def c14_plan(tier):
     if tier == "quick":
-        return plan(["B1@4/3", "B1,snappy=1,bloom=1@0/2", "B1,cmp=1@0/2", NOCASE + "@0/2", "B2@0/2"] + LONGMAN_ITEMS + [SPLIT_CFG + "@0/2^" + L_SPLIT, "B1@2^" + L_DEEP, "B1@2^" + L_BIG, "B1@2^" + L_SNAP] + OVL_Q)
-    return plan(OVL_T + ["B1@5/4", "B1,snappy=1,bloom=1@4/3", "B1,cmp=1@4/3", NOCASE + "@3/3", "B1,reuse=1@3/3", "B2@3/2", SPLIT_CFG + "@0/3^" + L_SPLIT, "B1@3^" + L_DEEP, "B1@3^" + L_BIG,
+        return plan(["B1@4/3", "B1,snappy=1,bloom=1@0/2", "B1,cmp=1@0/2", NOCASE + "@0/2", "B2@0/2"] + LONGMAN_ITEMS + [SPLIT_CFG + "@0/2^" + L_SPLIT, "B1@2^" + L_DEEP, "B1@2^" + L_BIG, "B1@2^" + L_SNAP, "B1@2^" + L_BOTTOM] + OVL_Q)
+    return plan(OVL_T + ["B1@3^" + L_BOTTOM, "B1@5/4", "B1,snappy=1,bloom=1@4/3", "B1,cmp=1@4/3", NOCASE + "@3/3", "B1,reuse=1@3/3", "B2@3/2", SPLIT_CFG + "@0/3^" + L_SPLIT, "B1@3^" + L_DEEP, "B1@3^" + L_BIG,
                  "B1@3^" + L_SNAP, "B1,cmp=1@3^" + L_DEEP, "B1,snappy=1,bloom=1@3^" + L_BIG])
 
 
@@ -348,7 +355,7 @@ PROPS["C11"] = dict(
 PROPS["C18"]["stages"].append(dict(name="wholedb", driver="corrupt", flavour="asan", args=["--mode", "c18"],
                                    quick=["--cfgs", "B1", "--dbs", "3", "--quick-alts", "1"],
                                    thorough=["--cfgs", "B1;B1,snappy=1,bloom=1;B1,mmap=0", "--dbs", "3"]))
-PROPS["C18"]["rule"] += "; whole-database stage: every byte of every file of generated databases x alterations, then open / compact / scan both ways / repair / open / scan on the damaged copy (oracle: returns, no sanitizer report, bounded scans)"
+PROPS["C18"]["rule"] += "; whole-database stage: every byte of every file of generated databases x alterations, then ldb_dump_file of the damaged file (src/dumpfile.c) / open / compact / scan both ways / repair / open / scan on the damaged copy (oracle: returns, no sanitizer report, bounded scans)"
 PROPS["C18"]["assumptions"] = E5_ASSUME
 ENGINES["corrupt"] = "E4: byte-damage enumerator over generated databases (C11 oracle; C18 whole-database totality)"
 
@@ -399,3 +406,18 @@ PROPS["C17"]["stages"].append(dict(name="fault-manifest", driver="fault", flavou
 PROPS["C17"]["rule"] += ("; fault stage: for every failed or short write(2) and every failed rename(2) of every history, after every operation that returns OK the MANIFEST that CURRENT names "
                          "(decoded independently) folds to exactly the file set the database reports")
 PROPS["C17"]["assumptions"] = PROPS["C17"]["assumptions"] + FAULT_ASSUME
+
+# crash enumeration from NON-INITIAL states: a preparation run (--base) builds the state, crash points start after it
+BASE_LONGMAN = "P1.1 F O 50*(P1.1 F)"     # reuse=1, uni=2: the reused MANIFEST has grown past a 32 KiB block
+BASE_DEEP = L_DEEP + " O"                 # tables on several levels, then a reopen
+for _p, _cls in (("C02", 0x7f), ("C03", 0x02), ("C05", 0x7f), ("C17", 0x7f)):
+    PROPS[_p]["stages"].append(dict(name="crash-long-manifest", driver="crash", flavour="asan", weight=0.4,
+                                    args=["--prop", _p, "--classes", str(_cls), "--base", BASE_LONGMAN],
+                                    quick=["--cfgs", "B1,reuse=1,uni=2", "--len", "1", "--nested", "0", "--scripted", "0"],
+                                    thorough=["--cfgs", "B1,reuse=1,uni=2;B1,uni=2", "--len", "2", "--nested", "1", "--scripted", "0"]))
+    PROPS[_p]["stages"].append(dict(name="crash-from-deep", driver="crash", flavour="asan", weight=0.4,
+                                    args=["--prop", _p, "--classes", str(_cls), "--base", BASE_DEEP, "--wide", "1"],
+                                    quick=["--cfgs", "B1", "--len", "1", "--nested", "0", "--scripted", "0"],
+                                    thorough=["--cfgs", "B1;B1,reuse=1", "--len", "2", "--nested", "1", "--scripted", "0"]))
+    PROPS[_p]["rule"] += ("; prepared-state stages: the same enumeration started from (a) a database whose reused MANIFEST is longer than one 32 KiB block and (b) a multi-level layout after a reopen "
+                          "(crash points only after the preparation run, whose contents are part of every image's expected state)")
